@@ -152,7 +152,29 @@ def replay_work_bound(inputs, obl):
                 sys.setprofile(None)
             if worst is None or cnt[0] / (len(text) + 2) > worst[0]:
                 worst = (cnt[0] / (len(text) + 2), text, cnt[0])
-    return dict(confirmed=False, detail=f"parser-level calls stay linear: at most {worst[0]:.1f} per character ({worst[2]} calls for {worst[1]!r})")
+    # work hidden inside ONE library call (a backtracking regular expression, a quadratic search) makes no parser-level calls: a wall-clock
+    # limit for unterminated strings / comments / symbols of a few dozen characters (linear work takes microseconds)
+    import signal
+
+    class _Slow(BaseException):
+        pass
+
+    def on_alarm(*a):
+        raise _Slow()
+    for text in ('msg::"' + 'x' * 40, '"' + 'ab' * 30, 'a::"' + 'x' * 32 + '\n' + 'y' * 8, ':"' + 'c' * 48, '[1 "' + 'z' * 36, 'f::{"' + 'q' * 36 + '}'):
+        k = KlongInterpreter()
+        old = signal.signal(signal.SIGALRM, on_alarm)
+        signal.setitimer(signal.ITIMER_REAL, 3.0)
+        try:
+            k.prog(text)
+        except _Slow:
+            return dict(confirmed=True, detail=f"parsing {text!r} (length {len(text)}) did not finish within 3 s: the work is not polynomial in the length")
+        except Exception:
+            pass
+        finally:
+            signal.setitimer(signal.ITIMER_REAL, 0)
+            signal.signal(signal.SIGALRM, old)
+    return dict(confirmed=False, detail=f"parser-level calls stay linear: at most {worst[0]:.1f} per character ({worst[2]} calls for {worst[1]!r}); unterminated literals parse at once")
 
 
 def replay_parse_effects(inputs, obl):
